@@ -31,4 +31,6 @@ func VerifSecretParts(us *UnblindingSecret) (*math.G1, []*math.Zr, *math.Zr) {
 }
 
 // VerifPPParts exposes the public parameters, so that the harness can build algebraically consistent alterations.
-func VerifPPParts(pp *PP) (g, g0 *math.G1, gs []*math.G1, g2 *math.G2) { return pp.g, pp.g0, pp.gs, pp.g2 }
+func VerifPPParts(pp *PP) (g, g0 *math.G1, gs []*math.G1, g2 *math.G2) {
+	return pp.g, pp.g0, pp.gs, pp.g2
+}
